@@ -865,7 +865,11 @@ def main():
     enc_peers = []
     for Q, tag in PT:
         k = 0
-        for u in [1, 2, P - 1, W.C1, i32(fill[7]), i32(fill[8]), 3, 5, 7, 11]:
+        # candidates for u: special values and two fillers first, then small integers until at least two encodings exist (whether a
+        # given (u, branch) encodes Q depends on Q; the search must not depend on which fillers VERIF_SEED happens to give)
+        for u in [1, 2, P - 1, W.C1, i32(fill[7]), i32(fill[8]), 3, 5, 7, 11] + list(range(12, 600)):
+            if k >= 3 or (k >= 2 and u >= 12):
+                break
             for c in range(8):
                 t = W.xswiftec_inv(Q[0], u, c)
                 if t is not None and k < 3:
